@@ -1,7 +1,7 @@
 // C13 correspondence harness: initTaskingSystem / numTaskingThreads / parallel_for of the working tree,
 // built once per tasking backend.  The tasking handle is process-global, so every case runs in a
 // forked child of a parent that has never touched the tasking system.  Every child has a watchdog
-// (C13_CASE_DEADLINE_S, default 20 s; 3 s once three children have hung): a hung child is diagnosed on
+// (C13_CASE_DEADLINE_S, default 8 s for seq / 20 s for pf; 3 s once three children have hung): a hung child is diagnosed on
 // stderr (HANGDIAG lines), killed and reported as "HANG after_result=<0|1> partial=...".
 //   harness seq   : stdin lines "n1 n2 ..."                 -> "r0 r1 r2 ..." (numTaskingThreads before / after each init)
 //   harness pf    : stdin lines "nfirst n size dur"         -> "report=R count=C max_inside=M ids=I"
@@ -104,7 +104,7 @@ int main(int argc, char **argv)
 {
   if (argc < 2) return 2;
   std::string mode = argv[1];
-  int case_deadline_s = getenv("C13_CASE_DEADLINE_S") ? atoi(getenv("C13_CASE_DEADLINE_S")) : 20;
+  int case_deadline_s = getenv("C13_CASE_DEADLINE_S") ? atoi(getenv("C13_CASE_DEADLINE_S")) : (mode == "seq" ? 8 : 20);  // a seq child needs milliseconds
   if (case_deadline_s < 1) case_deadline_s = 20;
   int hangs = 0;
   std::string line;
